@@ -945,10 +945,106 @@ def _ds_runs(entries, ids=None):
     return [e for e in entries if e[0] in ("callback", "body") and e[3] and (ids is None or e[3] in ids)]
 
 
+def judge_logged_group(cases, lab):
+    """Graphs with Logged(...) wrappers (family logging): which messages an evaluation emits (the
+    specification's MustLog / MayLog), when (before / after the wrapped evaluation), that every
+    emission is a LogRequest, and that disabling logging silences them without changing values."""
+    import contextlib
+    import logging as pylogging
+
+    import labrea.logging
+
+    out = []
+    for c in cases:
+        res = Result()
+        out.append((c, res))
+        a = c["a"]
+        o = dec(a["o"])
+        nodes = c["nodes"]
+        lazyish = any(nd["k"] == "map" or (nd["k"] == "coll" and nd["c"] == "iter") for nd in nodes)
+
+        def run(mode):
+            g = _fresh(c, lab)
+            o2 = copy.deepcopy(o)
+            if mode == "option":
+                o2["LABREA"] = {"LOGGING": {"DISABLED": True}}
+            seen = []
+            events = []
+            cap = _LogCapture()
+            orig_emit = cap.h.emit
+
+            def emit(record, _g=g):
+                orig_emit(record)
+                if record.name == "verif.logged":
+                    _g.log.append(("log", record.getMessage(), (), 0))
+
+            cap.h.emit = emit
+            with contextlib.ExitStack() as st:
+                if mode == "ctx":
+                    st.enter_context(labrea.logging.disabled())
+                with cap:
+                    r = _with_passthrough(["log"], seen, lambda: observe.call(lambda: g.root.evaluate(o2), lab)) \
+                        if mode == "on" else observe.call(lambda: g.root.evaluate(o2), lab)
+            events = list(g.log)
+            recs = [x for x in cap.records if x[1] == "verif.logged"]
+            return r, recs, seen, events
+
+        ref, recs, seen, events = run("on")
+        if ref.get("lazy"):
+            continue
+        res.nontrivial = any(nd["k"] == "logged" for nd in nodes)
+        _cmp_outcome(res, "value", ref, a["eval"])
+        emitted = [m for _, _, m in recs]
+        may = {"L%d" % n for n in a["maylog"]}
+        must = {"L%d" % n for n in a["mustlog"]}
+        if not set(emitted) <= may:
+            res.bad("log-unexpected", "messages %s were emitted; the evaluation reaches only the Logged nodes %s" % (
+                sorted(set(emitted) - may), sorted(may)))
+        silent = {"L%d" % n for n in a["nolog"]} & set(emitted)
+        if silent:
+            res.bad("log-after-failure", "log_first=False and the wrapped evaluation failed, yet %s was emitted" % sorted(silent))
+        if not lazyish and not must <= set(emitted):
+            res.bad("log-missing", "the evaluation reaches Logged nodes %s but only %s were emitted" % (sorted(must), sorted(set(emitted))))
+        if any(lv != pylogging.INFO for lv, _, _ in recs):
+            res.bad("log-level", "records %s are not at the level given to Logged" % recs[:3])
+        reqs = [r.msg for n, r in seen if getattr(r, "name", None) == "verif.logged"]
+        if sorted(reqs) != sorted(emitted):
+            res.bad("log-is-request", "emitted %s but the pass-through LogRequest handler observed %s" % (sorted(emitted), sorted(reqs)))
+        # order: before / after the evaluation of the wrapped node (only where the wrapped node is used once
+        # and owns harness callables)
+        for i, nd in enumerate(nodes, start=1):
+            if nd["k"] != "logged":
+                continue
+            j = nd["inner"]
+            uses = sum(1 for other in nodes for key in ("d", "dom", "arg", "src", "other", "dflt", "inner", "fp", "disp") if other.get(key) == j) \
+                + sum(1 for other in nodes for key in ("ms", "args") if j in other.get(key, [])) \
+                + sum(1 for other in nodes for key in ("lk", "cases") for e in other.get(key, []) if j in (e.get("n"), e.get("c")))
+            if uses != 1:
+                continue
+            pos_log = [k for k, e in enumerate(events) if e[0] == "log" and e[1] == "L%d" % i]
+            pos_own = [k for k, e in enumerate(events) if e[0] != "log" and e[3] == j]
+            if not pos_log or not pos_own:
+                continue
+            if nd["first"] and min(pos_own) < min(pos_log):
+                res.bad("log-order", "Logged node %d (log_first) emitted after its wrapped node had started to run" % i)
+            if not nd["first"] and min(pos_log) < min(pos_own):
+                res.bad("log-order", "Logged node %d (log_first=False) emitted before its wrapped node ran" % i)
+        for mode in ("option", "ctx"):
+            r2, recs2, _, _ = run(mode)
+            if not same_outcome(r2, ref):
+                res.bad("value[logging=%s]" % mode, "with logging disabled the evaluation gives %s, otherwise %s" % (
+                    observe.describe(r2), observe.describe(ref)))
+            if recs2:
+                res.bad("logging-off[logging=%s]" % mode, "%d records emitted although logging is disabled: %s" % (len(recs2), recs2[:3]))
+    return out
+
+
 def judge_c16_group(cases, lab):
     import logging as pylogging
     import zlib
 
+    if cases and any(nd["k"] == "logged" for nd in cases[0]["nodes"]):
+        return judge_logged_group(cases, lab)
     out = {id(c): Result() for c in cases}
     if not cases or not any(nd["k"] == "ds" for nd in cases[0]["nodes"]):
         return [(c, out[id(c)]) for c in cases]
